@@ -153,9 +153,9 @@ def directed_symlink(cw, sb, rng):
     return ['directed:symlink']
 
 def directed_legacy_used(cw, sb, rng):
-    """witness for K7f: every root keeps only a legacy-named manifest with the right entries; one module changes, so
-    the deploy rewrites the manifests; an interruption between two manifest writes leaves the later roots with their
-    (still exact) legacy manifests, which the re-run accepts"""
+    """regression for /repo 800fc7e (was half of K7f): every root keeps only a legacy-named manifest with the right
+    entries; one module changes, so the deploy rewrites the manifests; after an interruption between two manifest
+    writes the re-run must migrate the remaining legacy manifests too"""
     for r in cw.roots(None):
         pref = r['root'] + '/' + ds.mf_name(r['target']); leg = r['root'] + '/' + ds.LEGACY
         if os.path.exists(pref) and not os.path.exists(leg):
@@ -165,6 +165,16 @@ def directed_legacy_used(cw, sb, rng):
     fn = 'SKILL.md' if m['type'] == 'skill' else sorted(m['files'])[0]
     m['files'][fn] = ds.skill_md(m['id'].split(':')[1], 'changed') if fn == 'SKILL.md' else (ds.command_md('do changed') if m['type'] == 'command' else b'changed\n')
     return ['directed:legacy_used']
+
+def directed_no_manifests_empty(cw, sb, rng):
+    """witness for K7f: the user removed every manifest (the snapshot is the record) and every module is switched off;
+    the deploy deletes everything and writes an empty manifest into each root it deleted from; after an
+    interruption the re-run only does that for the roots that still had something to delete"""
+    for r in cw.roots(None):
+        for q in (r['root'] + '/' + ds.mf_name(r['target']), r['root'] + '/' + ds.LEGACY):
+            if os.path.exists(q): os.remove(q)
+    for m in cw.modules: m['enabled'] = False
+    return ['directed:no_manifests_empty']
 
 def directed_all_empty(cw, sb, rng):
     """regression for K7e: the deploy empties every remaining root (all manifests are rewritten empty) while an
@@ -194,7 +204,7 @@ def run_scenario(ctx, idx, kinds, max_points, cases, directed=None):
         cw = ds.CfgWorld(sb, rng)
         while not cw.desired(None):
             cw = ds.CfgWorld(sb, rng)
-        if directed in (directed_all_empty, directed_legacy_used):
+        if directed in (directed_all_empty, directed_legacy_used, directed_no_manifests_empty):
             first_deploy_all_on(cw)
         cw.write()
         base = sb.root
@@ -321,7 +331,7 @@ def run_scenario(ctx, idx, kinds, max_points, cases, directed=None):
 
 KNOWN = {'K7a': 'a permission error outside write_atomic (backup copy, remove_file, create_dir_all of snapshot dirs) is reported as E_UNEXPECTED instead of the stable E_IO_PERMISSION_DENIED',
          'K7b': 'rollback ignores remove_file errors: it exits 0 and records rollback_delete although the file is still there',
-         'K7f': 'after a re-run the manifest FILES can differ from the uninterrupted run although every root lists exactly the same files: an empty manifest of a root without outputs is not re-created, a legacy-named manifest with the right entries is not migrated to the per-target name',
+         'K7f': 'after a re-run the manifest FILES can differ from the uninterrupted run although every root lists exactly the same files: an empty manifest of a root without outputs (written by the uninterrupted run because it deleted files there) is not re-created',
          'K7c': 're-running deploy after an interruption between the file writes and the manifest writes takes the no-change shortcut and never rewrites the stale manifests'}
 
 def snapshot_term(sb, sid, ids, base, with_manifests):
@@ -447,7 +457,9 @@ def run(ctx):
     for i in range(2 if quick else 6):
         run_scenario(ctx, 3000 + i, kinds, 20 if quick else None, cases, directed=directed_symlink)
     for i in range(2 if quick else 6):
-        run_scenario(ctx, 4000 + i, ['abort'], None, cases, directed=directed_legacy_used)
+        run_scenario(ctx, 4000 + i, ['abort'], None, cases, directed=directed_legacy_used)      # regression for fix 800fc7e
+    for i in range(2 if quick else 6):
+        run_scenario(ctx, 5000 + i, ['abort'], None, cases, directed=directed_no_manifests_empty)   # witness for K7f
     for c in ctx.corr('crash', HEADER, 'check_crash', 'crash_case', cases, shard_chars=40000):
         ctx.violation('model and implementation disagree on the sequence of mutating operations / a crash-prefix disk', c, no_input=True)
     rcases = []
